@@ -103,6 +103,28 @@ def check_batch(ctx, rep, direction, msgs):
             rep.violation('decode(encode(m)) differs from m', case, finding=classify(direction, m, 'roundtrip'),
                           decoded=dj, expected=a['norm'])
             continue
+        # a decoded object must own its fields: editing them in place must not reach into later decodes of the same bytes
+        if d is not None:
+            touched = False
+            for attr in ('bits', 'registers', 'values', 'events', 'message', 'write_registers', 'records'):
+                v = getattr(d, attr, None)
+                if isinstance(v, list) and v:
+                    try:
+                        v[0] = (not v[0]) if isinstance(v[0], bool) else (v[0] + 1 if isinstance(v[0], int) else v[0])
+                        touched = True
+                    except Exception:  # noqa
+                        pass
+            if touched:
+                try:
+                    d2 = dec.decode(bytes(e1))
+                    dj2 = to_json(d2) if d2 is not None else None
+                except Exception as e:  # noqa
+                    dj2 = {'err': errkind(e)}
+                if dj2 != a['norm']:
+                    rep.violation('editing a decoded message in place changes what the same bytes decode to afterwards', case,
+                                  decoded_again=dj2, expected=a['norm'])
+                    continue
+                d = d2
         e3 = enc(d)
         if e3 != e1:
             rep.violation('encoding the decoded object gives different bytes', case, finding=classify(direction, m, 'fixed'),
